@@ -149,6 +149,9 @@ class PSet:
         c.n = dict(self.n)
         return c
 
+    def args_without(self, skip):
+        return [a for a in self.args() if a.split("=")[0] not in skip]
+
     def args(self):
         big, small, seed = FIELDS[self.scheme]
         a = ["scheme=" + self.scheme]
@@ -157,7 +160,8 @@ class PSet:
         if self.scheme == "dstu":
             a.append("f=" + ",".join(str(x) for x in self.v["f"]))
         for f in big + ((seed,) if seed else ()):
-            a.append("%s=%s" % (f, hx(self.v[f], self.n[f])))
+            if f in self.v:
+                a.append("%s=%s" % (f, hx(self.v[f], self.n[f])))
         return a
 
 
@@ -313,7 +317,7 @@ def cubic_root(c2, c1, c0, p, rng):
 
 
 # ------------------------------------------------------------------ parameter-set perturbations
-def ec_perturbations(ps, rng, tier, aid=None):
+def ec_perturbations(ps, rng, tier, aid=None, heavy=True):
     """[(command)] single-field perturbations of an elliptic-curve parameter set (bign, bign96, g12s), each with the
     condition it violates and the evidence.  aid(name, args) runs generator aids of the driver (belt-hash)."""
     sch = ps.scheme
@@ -332,12 +336,14 @@ def ec_perturbations(ps, rng, tier, aid=None):
         mk("l", "l=0", l=0)
         mk("l", "l=other", l=(100 if sch == "bign" else 128))
         if sch == "bign":
+            # the data of this level declared as a neighbour level: a higher one makes p too short, a lower one leaves
+            # non-zero octets in the unused part of the arrays
             other = 192 if v["l"] != 192 else 256
             c = ps.copy(); c.v["l"] = other
             for f in ("p", "a", "b", "q", "yG"):
                 c.n[f] = max(c.n[f], other // 4)
-            out.append(pval_cmd(c, "fail", "plen", "l=neighbour-level"))
-        if ps.n["p"] < 64:
+            out.append(pval_cmd(c, "fail", "plen" if other > v["l"] else "pad", "l=neighbour-level"))
+        if ps.n["p"] < 64 and sch == "bign":
             c = ps.copy()
             fpad = ("p", "a", "b", "q", "yG")[rng.randrange(5)]
             c.n[fpad] = 64
@@ -372,10 +378,11 @@ def ec_perturbations(ps, rng, tier, aid=None):
         mk("bseed", "seed:bit", seed=v["seed"] ^ (1 << rng.randrange(64)))
         mk("bseed", "b+1", b=b + 1)
         mk("bseed", "a:bit", a=a ^ (1 << rng.randrange(L - 2)))
-        mk("yG", "-G", yG=p - v["yG"])
-        mk("yG", "yG+1", yG=v["yG"] + 1)
+        if heavy:
+            mk("yG", "-G", yG=p - v["yG"])
+            mk("yG", "yG+1", yG=v["yG"] + 1)
         # b a non-residue: another seed (needs belt-hash: generator aid)
-        if aid is not None:
+        if aid is not None and heavy:
             no = ps.n["p"]
             for t in range(1, 40):
                 s2 = (v["seed"] + (t << 32)) % (1 << 64)
@@ -405,7 +412,7 @@ def ec_perturbations(ps, rng, tier, aid=None):
     if bign:
         mk("qlen", "q:top-bit-cleared", q=q - (1 << (ql - 1)))
     else:
-        mk("qlen", "q:short", q=q >> 3)
+        mk("qlen", "q:short", q=q >> (ql - (254 if v["l"] == 256 else 508)))
     qc, f = composite_small_factor(q)
     mk("qprime", "q:small-factor", ("sf=%d" % f,), q=qc)
     n2, f2 = composite_two_primes(rng, ql, arnault=(tier != "quick"))
@@ -420,7 +427,7 @@ def ec_perturbations(ps, rng, tier, aid=None):
     return out
 
 
-def dl_perturbations(ps, rng, tier):
+def dl_perturbations(ps, rng, tier, heavy=True):
     """stb99 / pfok: perturbations of p, q, a, d / p, g with evidence"""
     sch, v = ps.scheme, ps.v
     p = v["p"]
@@ -450,8 +457,9 @@ def dl_perturbations(ps, rng, tier):
         mk("arange", "a=p", a=p)
         mk("drange", "d=0", d=0)
         mk("drange", "d=p", d=p)
-        mk("agen", "a+1", a=v["a"] + 1)
-        mk("agen", "d+1", d=v["d"] + 1)
+        if heavy:
+            mk("agen", "a+1", a=v["a"] + 1)
+            mk("agen", "d+1", d=v["d"] + 1)
         R = pow(2, L + 2, p)
         mk("anotone", "a=unity", a=R, d=R)                 # d = e => a = e
         if ps.n["p"] < 308:
@@ -469,10 +477,11 @@ def dl_perturbations(ps, rng, tier):
         mk("grange", "g=0", g=0)
         mk("grange", "g=p", g=p)
         R = pow(2, L + 2, p)
-        mk("gord", "g=unity", g=R)
-        mk("gord", "g=-unity", g=p - R)                    # order 2
-        g2 = v["g"] * v["g"] % p * pow(R, -1, p) % p        # g o g: order q
-        mk("gord", "g=g^(2)", g=g2)
+        if heavy:
+            mk("gord", "g=unity", g=R)
+            mk("gord", "g=-unity", g=p - R)                    # order 2
+            g2 = v["g"] * v["g"] % p * pow(R, -1, p) % p        # g o g: order q
+            mk("gord", "g=g^(2)", g=g2)
     return out
 
 
@@ -747,6 +756,8 @@ def prime_cmds(rng, tier, W=64):
 def poly_cmds(rng, tier, std_bels):
     out = []
     for row in std_bels:
+        if tier == "quick" and row["num"] not in (0, 1, 16):
+            continue
         out.append("belsValM m=%s len=%d cls=std%d" % (hxo(row["m"]), row["len"], row["num"]))
         m = list(row["m"])
         m[0] ^= 2
